@@ -366,8 +366,22 @@ func tlStress(s *Stream, rng *Rng, withCancel bool, statusFocus bool) {
 			}
 		}(p)
 	}
-	wg.Wait()
+	// every PushTask returns within its timeout (30 ms at most here), cancelled or not
+	prodDone := make(chan struct{})
+	go func() { wg.Wait(); close(prodDone) }()
+	select {
+	case <-prodDone:
+	case <-time.After(tlDeadline):
+		s.Violate("push-does-not-return", fmt.Sprintf("a PushTask call (timeout %v) has not returned %v after it was made (context cancelled: %v)", to, tlDeadline, ctx.Err() != nil), sc)
+		cancel()
+		close(stopPoll)
+		pollWg.Wait()
+		return // the lane is wedged: nothing more can be checked on it
+	}
 	accepted := 0
+	mu.Lock()
+	pushes = append([]tlPush{}, pushes...)
+	mu.Unlock()
 	for _, p := range pushes {
 		if p.err == nil {
 			accepted++
